@@ -226,7 +226,7 @@ fn read_map(data: Vec<u8>) -> std::result::Result<BTreeMap<u16, String>, (String
 }
 
 const CODES: [u16; 9] = [0, 1, 2, 3, 0xff, 0x100, 0x101, 0xfffe, 0xffff];
-const TEXTS: [&str; 5] = ["A", "AB", "\u{ffff}", "\u{10000}", "\u{10ffff}"];
+const TEXTS: [&str; 7] = ["A", "AB", "\u{ffff}", "\u{10000}", "\u{10ffff}", "\u{feff}", "\u{feff}y"];
 
 /// write_cmap then Font::to_unicode must give the same map; all maps with <= 3 entries over CODES x TEXTS
 fn writer_roundtrip(tally: &mut Tally) {
@@ -301,7 +301,7 @@ const CODEBYTES: &[&str] = &["2-byte", "1-byte"];
 const SECTION: &[&str] = &["bfchar", "bfrange-string", "bfrange-array", "mixed"];
 const HEXCASE: &[&str] = &["upper", "lower", "inner-ws"];
 const SEP: &[&str] = &["SP", "LF", "CRLF", "none", "comment"];
-const DEST: &[&str] = &["A", "AB", "supplementary", "U+00FE", "U+FFFD", "U+00FF"];
+const DEST: &[&str] = &["A", "AB", "supplementary", "U+00FE", "U+FFFD", "U+00FF", "U+FEFD", "U+FEFF+A"];
 const RANGELEN: &[&str] = &["3", "1", "2"];
 const START: &[&str] = &["0x10", "0", "0xFD", "0xFFFD"];
 
@@ -344,7 +344,7 @@ pub fn cmap_case(ch: &mut Chooser, t: &mut Tally) {
     }
     let sep = ["\u{20}", "\n", "\r\n", "", "%c\n"][sepi];
     let code = |c: u16| if onebyte { hexs(&[c as u8], hexcase) } else { hexs(&c.to_be_bytes(), hexcase) };
-    let dest = ["A", "AB", "\u{1F600}", "\u{fe}", "\u{fffd}", "\u{ff}"][desti];
+    let dest = ["A", "AB", "\u{1F600}", "\u{fe}", "\u{fffd}", "\u{ff}", "\u{fefd}", "\u{feff}A"][desti];
     let mut model: BTreeMap<u16, String> = BTreeMap::new();
     let mut body = String::new();
     // per spec a range with a string destination increments the last byte of the string; it must not overflow 255
@@ -463,7 +463,7 @@ pub fn run(tier: Tier, _seed: u64, tally: &mut Tally) -> CheckMeta {
     CheckMeta {
         prop: "C19",
         level: "model_checking",
-        rule: format!("composite /W arrays: full product of 1..{} groups x form {{c [w..], c1 c2 w}} x length {{1,2,3}} x spacing {{adjacent, gap 1, gap 40}} x anchor {{0, 300, 65400}} x every permutation of the groups x DW {{1000 omitted, 0, 500}}, queried at every code within 2 of each range end plus 0/1/65534/65535; simple fonts: FirstChar x Widths length x subtype; write_cmap round trip for all maps with <= 3 entries over 9 codes x 5 texts (BMP, U+FFFF, supplementary planes); conformant CMap texts (bfchar, bfrange with string and array destinations, mixed sections, 1- and 2-byte codes, range lengths, start codes incl. 0xFD/0xFFFD) x hex case / separators / header presence with bounded deviations. Distinct by the printed font dictionary / cmap text.", maxg),
+        rule: format!("composite /W arrays: full product of 1..{} groups x form {{c [w..], c1 c2 w}} x length {{1,2,3}} x spacing {{adjacent, gap 1, gap 40}} x anchor {{0, 300, 65400}} x every permutation of the groups x DW {{1000 omitted, 0, 500}}, queried at every code within 2 of each range end plus 0/1/65534/65535; simple fonts: FirstChar x Widths length x subtype; write_cmap round trip for all maps with <= 3 entries over 9 codes x 7 texts (BMP, U+FFFF, supplementary planes, texts beginning with U+FEFF); conformant CMap texts (bfchar, bfrange with string and array destinations, mixed sections, 1- and 2-byte codes, range lengths, start codes incl. 0xFD/0xFFFD) x hex case / separators / header presence with bounded deviations. Distinct by the printed font dictionary / cmap text.", maxg),
         assumptions: vec!["MissingWidth absent for simple fonts (default 0 is unambiguous only then)".into(), "bfrange string destinations whose last byte would overflow are not generated (the spec leaves them undefined)".into()],
         exhaustive: true,
         bounds: json!({"groups": maxg}),
